@@ -53,6 +53,48 @@ type Location struct {
 	OnlyV   []*big.Int // OnlyV[k] is listed in version k only
 	Never   []*big.Int
 	Fetches int
+	Variant string // "" = authentic; otherwise a forged/odd variant of Versions[Cur] is served
+	vcache  map[string]*CRLSpec
+}
+
+// Doc returns the document currently published at the location (version Cur, variant applied).
+func (l *Location) Doc() *CRLSpec {
+	v := l.Versions[l.Cur]
+	if l.Variant == "" {
+		return v
+	}
+	key := fmt.Sprintf("%d/%s", l.Cur, l.Variant)
+	if d, ok := l.vcache[key]; ok {
+		return d
+	}
+	c := *v
+	c.Name = v.Name + "+" + l.Variant
+	switch l.Variant {
+	case "badsig":
+		c.BadSig = true
+	case "stranger":
+		c.Signer, c.SignerKey = l.w.X, nil
+		c.AutoAlg = true
+	case "sibling":
+		c.Signer, c.SignerKey = l.w.Sib, nil
+		c.AutoAlg = true
+	case "critext":
+		c.CritUnknown = true
+	case "alg-pss":
+		c.Alg, c.AutoAlg = RSAPSSSHA256, false
+	case "alg-ed25519":
+		c.Alg, c.AutoAlg = ED25519, false
+	case "alg-md5":
+		c.Alg, c.AutoAlg = MD5RSA, false
+	default:
+		panic("harness: unknown variant " + l.Variant)
+	}
+	c.Build()
+	if l.vcache == nil {
+		l.vcache = map[string]*CRLSpec{}
+	}
+	l.vcache[key] = &c
+	return &c
 }
 
 type WorldOpts struct {
@@ -77,8 +119,8 @@ func NewWorld(h *Harness, o WorldOpts) *World {
 	}
 	w.A = NewCA(parent, CAOpts{CN: "Sim Issuing A", RSA: rsa(3), NoKeyUse: o.KeyUsageOff})
 	w.B = NewCA(parent, CAOpts{CN: "Sim Issuing B", RSA: rsa(4)})
-	w.Sib = NewCA(nil, CAOpts{CN: "x", SubjectOf: w.A, RSA: rsa(2)})
-	w.X = NewCA(nil, CAOpts{CN: "Stranger X", RSA: rsa(1)})
+	w.Sib = NewCA(nil, CAOpts{CN: "x", SubjectOf: w.A, RSA: rsa(6)})
+	w.X = NewCA(nil, CAOpts{CN: "Stranger X", RSA: rsa(5)})
 	return w
 }
 
@@ -185,7 +227,7 @@ func (l *Location) serve(hit *NetHit) Delivery {
 	html := []byte("<html><body><h1>Service unavailable</h1></body></html>\n")
 	switch l.State {
 	case oGood:
-		v := l.Versions[l.Cur]
+		v := l.Doc()
 		d.Body, d.Doc, d.Intact = v.Bytes, v.Name, true
 	case oDown:
 		d.Kind = dRefuse
@@ -200,7 +242,7 @@ func (l *Location) serve(hit *NetHit) Delivery {
 		}
 		d.Body = g
 	case oTrunc, oReset:
-		v := l.Versions[l.Cur]
+		v := l.Doc()
 		cut := l.CutAt
 		if cut <= 0 || cut >= len(v.Bytes) {
 			cut = len(v.Bytes) / 2
